@@ -263,6 +263,29 @@ def foreign_but_legal(ctx, rng):
                 if not o.ok or o.value.plaintext != pt:
                     ctx.violation(f"foreign-rejected:epk-with-extra-members:{'+'.join(sorted(extra))}", f"{alg} on {curve} ({form}) with an epk that also carries {extra}: joserfc "
                                   f"{'rejects: ' + repr(o.exc) if not o.ok else 'returns another plaintext'}", {"dir": "B-foreign", "foreign_but_legal": True, "alg": alg, "token": b.token, "key": rk})
+    # members the syntax does not define, at the top level and inside a recipient object (RFC 7516, 7.2.1: "if not understood ... they MUST be ignored")
+    for ai, (alg, enc) in enumerate((("A128KW", "A128GCM"), ("RSA-OAEP", "A256CBC-HS512"), ("ECDH-ES+A128KW", "A128GCM"), ("dir", "A128GCM"), ("PBES2-HS256+A128KW", "A128GCM"))):
+        for form in ("flattened", "general"):
+            rk, sk = g.keys_for(alg, enc, "P-256")
+            b = g.make(form, enc, [(alg, rk, sk)], pt, alg_in="protected" if form == "flattened" else "recipient")
+            for where, extra in (("top-level", {"x-trace-id": "abc"}), ("top-level", {"created": 1700000000, "note": {"a": [1]}}), ("recipient", {"x-route": "eu"}),
+                                 ("top-level", {"signatures": None} if False else {"ext": None})):
+                ctx.ev()
+                t = copy.deepcopy(b.token)
+                if where == "top-level":
+                    t.update(copy.deepcopy(extra))
+                elif "recipients" in t:
+                    t["recipients"][0].update(copy.deepcopy(extra))
+                else:
+                    continue
+                o = call(j.jwe.decrypt_json, t, j.key(rk), algorithms=[alg, enc])
+                ctx.count("b_checked")
+                ctx.count("foreign_but_legal")
+                ctx.nontrivial(("ext-member", alg, form, where, tuple(extra)))
+                ctx.cell("B-foreign", "extension-member", form, where)
+                if not o.ok or o.value.plaintext != pt:
+                    ctx.violation(f"foreign-rejected:extension-member:{where}", f"{form} JWE ({alg}) with the {where} extension member(s) {sorted(extra)}: joserfc "
+                                  f"{'rejects: ' + repr(o.exc) if not o.ok else 'returns another plaintext'}", {"dir": "B-foreign", "foreign_but_legal": True, "alg": alg, "token": t, "key": rk})
     import itertools
     pw = gen.new_oct(256)
     names = [("PBES2-HS256+A128KW", "A128GCM"), ("PBES2-HS384+A192KW", "A128CBC-HS256"), ("PBES2-HS512+A256KW", "A256GCM")]
